@@ -16,6 +16,9 @@ THEOREMS = [
     "C04.parseValue_renderLit_partial",
     "C04.parseValue_string_counterexample",
     "C04.parseValue_concat_expr",
+    "C04.splitArgs_strlit_opaque",
+    "C04.splitArgs_mask_render",
+    "C04.splitArgs_unmask_first_counterexample",
     "C04.parseWhen_strlit_and_counterexample",
     "C04.parseWhen_strlit_paren_counterexample",
     "C04.parseThen_strlit_semicolon_counterexample",
@@ -30,7 +33,17 @@ RULE = ("cases = corpus (witness of every fixed defect and of every open finding
         "shapes, in each of 11 positions where parse_value reads a value (condition value, inside a compound condition, function-call "
         "condition, assigned value, += value, call argument, Log argument, array element of an assignment and of an `in` list, value "
         "after an arithmetic left side, multifield count value); expected = Value::Expression(source text, literal bodies unmasked); the "
-        "same concatenations are drawn in the random stream (scalars, values, array elements, Log) + N files generated from the documented GRL grammar: 0..8 rules, quoted/bare names, optional description, "
+        "same concatenations are drawn in the random stream (scalars, values, array elements, Log) + string literals as ARGUMENTS: each of 82 "
+        "literal bodies (the 42 metacharacter / keyword / placeholder bodies, 34 bodies around the list separator itself - `,` alone, "
+        "leading, trailing, doubled, with blanks, next to `)` `(` `&&` `||` `;` `{` `}` `//` `/* */`, the other quote kind, non-ASCII - and 6 plain "
+        "ones), written with the quote kind that fits, as an argument of a function-call leaf `f(args) op value` and of a `test(f(args))` "
+        "leaf (alone / first / middle / last position, every fifth vector with a second literal; bare and under ! && || exists forall; "
+        "three layouts) and in every argument position of every action form with an argument list (custom / function-call action: "
+        "alone, first, middle, last, all arguments literals; Log; ActivateAgendaGroup / CompleteWorkflow / ScheduleRule names; "
+        "`$Obj.method(args)` in the stream M:method; array elements of `=`, `+=`, an `in` list and a function-call leaf's value; "
+        "two statements in one rule; literal arguments in the condition AND the actions of one rule); on the streams of the open "
+        "findings F-C04i / F-C04j the oracle additionally requires the observation to be exactly the one the finding explains "
+        "(`beyond_finding` otherwise), and for function-call / test leaves it compares the argument vectors (`call_args`) + N files generated from the documented GRL grammar: 0..8 rules, quoted/bare names, optional description, "
         "salience over the i32 range, condition trees to depth 5 (6 in thorough) over every atom form, literals of every type "
         "(i64 extremes, decimals, both quote styles, non-ASCII text, comment markers inside strings, one string in three with GRL "
         "metacharacters / keywords / placeholder look-alikes in its body: } { && || ' then ' ( ) ; = , += rule-when-then text; "
@@ -68,7 +81,7 @@ SIGS = {
 def classify(case, impl, model, oracle, kind):
     stream = case.split(" ", 1)[0]
     if kind == "oracle":
-        if stream in SIGS:
+        if stream in SIGS and "beyond_finding" not in oracle:
             return SIGS[stream]
         return "oracle:" + oracle.split("@")[0].replace("fail ", "")
     return "diff"
@@ -77,7 +90,8 @@ def classify(case, impl, model, oracle, kind):
 LEVEL_TEXT = ("Lean 4 theorems (kernel-checked, unbounded: every condition tree, every layout) about an executable model of the GRL "
               "parser's algorithmic layers: parsing the rendering of a condition tree returns the tree (&& tighter than ||, parentheses, "
               "!, exists/forall; any white space, any redundant parentheses), statement lists and literals round-trip, a string concatenation "
-              "that starts and ends with a literal is the expression that was written and never one literal, comments and quoted "
+              "that starts and ends with a literal is the expression that was written and never one literal, an argument list split at its commas "
+              "after the masking returns the arguments that were written whatever their string literals contain, comments and quoted "
               "header strings are opaque; tied to src/parser/grl.rs by a correspondence check on generated GRL files (full AST of "
               "parse_rules / parse_rule / parse_with_modules vs model) and by the round-trip oracle on the implementation's own output.")
 LEVEL_NOTE = ("Partial: the regex capture layer is modelled by scanning functions and tied by the correspondence only. String literals "
